@@ -207,8 +207,8 @@ func runTrajectoryHook(sc *Scenario, env *Env, oc *OutputCfg, oracles []Oracle, 
 					if err != nil || string(b) != string(disk.Get(p).Data) {
 						sim := disk.Get(p).Data
 						if sc.Prop == "C05" && err == nil {
-							// C05 is a statement about the result files themselves: the recorded stream is what the run wrote (judged by the record
-							// oracle, so a real file with other content holds records the run's configuration does not schedule
+							// C05 is a statement about the result files themselves: the recorded stream is what the run wrote (judged by the
+							// record oracles), so a real file with other content holds records the run did not write or lacks some it wrote
 							what := "other content"
 							if len(b) > len(sim) && string(b[:len(sim)]) == string(sim) {
 								what = "the run's records followed by what an earlier run had left in the file"
